@@ -8,7 +8,7 @@ Import ListNotations.
 Record Inv_flags (s : tree) : Prop := {
   i_wf : wf (blocks s);          (* a proper tree: unique ids, parents exist, one root *)
   i_ht : ht_ok (blocks s);       (* heights follow parents *)
-  i_fl : fl_ok (blocks s);       (* FAILED_CHILD <=> the parent is failed (hence: every descendant of a failed block is failed) *)
+  i_fl : fl_ok (blocks s);       (* every child of a failed block carries FAILED_CHILD (hence: every descendant of a failed block is failed) *)
   i_lv : lv_ok (blocks s)        (* a live block is at least BLOCK_VALID_TREE *)
 }.
 
@@ -40,7 +40,7 @@ Proof.
   { intros y Hy E. pose proof (wf_In_find l W y Hy) as F2. rewrite E, F in F2. congruence. }
   clear F W. induction l as [|z r IH]; simpl; constructor.
   - destruct (N.eqb_spec (bid z) id) as [E|E]; simpl; auto.
-    rewrite (G z (or_introl eq_refl) E). repeat split; auto.
+    rewrite (G z (or_introl eq_refl) E). repeat split; auto. unfold failed. rewrite B, P, C. auto.
   - apply IH. intros y Hy. apply G. right; auto.
 Qed.
 
@@ -214,7 +214,7 @@ Proof.
   fold (upd id g rr). rewrite find_upd.
   destruct (find_blk p rr) as [y|] eqn:Fy; [|contradiction]. simpl.
   destruct (N.eqb_spec (bid y) id) as [E|E]; simpl; auto.
-  rewrite Fx. symmetry. apply V; auto. right. eapply find_blk_In; eauto.
+  intros Fg. apply Fx. rewrite <- Fg. symmetry. apply V; auto. right. eapply find_blk_In; eauto.
 Qed.
 
 Lemma upd_lv id f l : (forall s, lvP s -> lvP (f s)) -> lv_ok l -> lv_ok (upd id f l).
@@ -351,7 +351,9 @@ Proof.
   destruct (remove_pass t r) as [o v]. simpl in IH.
   destruct ((bid x =? t)%N || (match bparent x with Some p => memN p v | None => false end && negb (deleted (bst x))));
     simpl; constructor; auto.
-  repeat split; auto. intros _ D. discriminate.
+  repeat split; auto.
+  - unfold failed; simpl. destruct (fblock (bst x)), (fpop (bst x)), (fchild (bst x)); auto.
+  - intros _ D. discriminate.
 Qed.
 
 Theorem remove_subtree_inv s id ord s' : Inv_flags s -> remove_subtree s id ord = Done s' -> Inv_flags s'.
@@ -377,10 +379,9 @@ Lemma pow_init_inv h w : Inv_flags (pow_init h w).
 Proof. constructor; simpl; auto. repeat constructor. unfold lvP; simpl. intros _. unfold L_APPLIED. lia. Qed.
 
 (* ------------------------------------------------------------------ consequences of the invariant *)
-(* every block on the parent path above a block: if some strict ancestor is failed, the block carries FAILED_CHILD,
-   and a block carrying FAILED_CHILD has a failed parent *)
+(* a failed parent implies FAILED_CHILD on the child *)
 Lemma fl_ok_find l : wf l -> fl_ok l -> forall p x q y, find_blk p l = Some x -> bparent x = Some q ->
-  find_blk q l = Some y -> fchild (bst x) = failed (bst y).
+  find_blk q l = Some y -> failed (bst y) = true -> fchild (bst x) = true.
 Proof.
   induction l as [|z r IH]; simpl; intros W F p x q y Fx Px Fy; [discriminate|].
   pose proof W as W0. destruct W as (Wr & Hz & Hp). destruct F as (Fr & Fz).
@@ -394,11 +395,11 @@ Proof.
     + eapply IH; eauto.
 Qed.
 
-Theorem failed_parent_iff_failed_child s : Inv_flags s -> forall p x q y,
+Theorem failed_parent_failed_child s : Inv_flags s -> forall p x q y,
   find_blk p (blocks s) = Some x -> bparent x = Some q -> find_blk q (blocks s) = Some y ->
-  (fchild (bst x) = true <-> failed (bst y) = true).
+  failed (bst y) = true -> fchild (bst x) = true.
 Proof.
-  intros [W _ F _] p x q y Fx Px Fy. rewrite (fl_ok_find _ W F p x q y Fx Px Fy). tauto.
+  intros [W _ F _] p x q y Fx Px Fy. apply (fl_ok_find _ W F p x q y Fx Px Fy).
 Qed.
 
 (* a block is valid only if its parent is not failed *)
@@ -407,9 +408,10 @@ Theorem valid_parent_not_failed s : Inv_flags s -> forall p x q y,
   is_valid L_TREE (bst x) = true -> failed (bst y) = false.
 Proof.
   intros I p x q y Fx Px Fy V. destruct I as [W _ F _].
-  rewrite <- (fl_ok_find _ W F p x q y Fx Px Fy).
+  destruct (failed (bst y)) eqn:Fd; auto.
+  pose proof (fl_ok_find _ W F p x q y Fx Px Fy Fd) as C.
   unfold is_valid in V. apply andb_true_iff in V. destruct V as [V _]. apply negb_true_iff in V.
-  unfold failed in V. apply orb_false_iff in V. tauto.
+  unfold failed in V. rewrite C in V. rewrite orb_true_r in V. discriminate.
 Qed.
 
 (* the steps proved so far, lifted over arbitrary interleavings *)
